@@ -203,9 +203,29 @@ func (a *Arith) Mul(req *Req, res *Res) error {
 // ---- harness-owned context
 
 type hctx struct {
-	done chan struct{}
-	err  error
-	buf  []byte
+	done  chan struct{}
+	err   error
+	buf   []byte
+	inner context.Context         // optional: a real context whose values (its cancellation cause, ...) are visible through this one
+	cause context.CancelCauseFunc // cancels inner
+}
+
+// newCtxCause: a context that will be cancelled with a cause (context.WithCancelCause): Err() is still
+// context.Canceled, context.Cause() is the cause.
+func newCtxCause(buf []byte) *hctx {
+	inner, cf := context.WithCancelCause(context.Background())
+	return &hctx{done: make(chan struct{}), buf: buf, inner: inner, cause: cf}
+}
+
+// cancelCause ends the context the way a caller of WithCancelCause / WithTimeoutCause does.
+func (c *hctx) cancelCause(err, cause error) {
+	if c.err == nil {
+		if c.cause != nil {
+			c.cause(cause)
+		}
+		c.err = err
+		vs.Close(c.done)
+	}
 }
 
 func newCtx(buf []byte) *hctx { return &hctx{done: make(chan struct{}), buf: buf} }
@@ -216,6 +236,9 @@ func (c *hctx) Err() error                  { return c.err }
 func (c *hctx) Value(k interface{}) interface{} {
 	if k == rpc.BufferContextKey && c.buf != nil {
 		return c.buf
+	}
+	if c.inner != nil {
+		return c.inner.Value(k)
 	}
 	return nil
 }
